@@ -401,4 +401,95 @@ func forkScenarioAmev(w *bufio.Writer) {
 	k.recv(zc)
 	fmt.Fprintf(w, "NOTE fork/amev: heights i=%d j=%d k=%d tips differ=%v\n", i.height, j.height, k.height, i.tip != j.tip)
 	endRun(w, mon, i, j, k)
+	raceScenario(w)
+}
+
+// a view change racing a commit (C01/C03): honest 1 (primary of view 0), 2, 3 and Byzantine 0 (primary of view 1) at
+// height 1. Node 3 commits X in view 0; 1 and 2 ask for view 1; 1 then finishes view 0 on the commits of 3 and 0 and
+// accepts X; 2 moves to view 1; the same ChangeViews reach the committed node 3, which must stay in view 0; the Byzantine
+// primary of view 1 proposes Y and commits it. With the commit lock intact Y can gather at most two commits.
+func raceScenario(w *bufio.Writer) {
+	fmt.Fprintf(w, "RUN 2002 N 4 CFG 1000000 -1 0\n")
+	mon := newMonitor(2002)
+	mon.byz[0] = true
+	mk := func(id int) *node {
+		n := mkScenNode(mon, id, mkVals(4), -1, w)
+		n.start(0)
+		return n
+	}
+	n1, n2, n3 := mk(1), mk(2), mk(3)
+	pick := func(n *node, t dbft.MessageType, v byte) *Payload {
+		var r *Payload
+		for _, p := range n.out {
+			if p.T == t && p.V == v {
+				r = p
+			}
+		}
+		n.out = nil
+		return r
+	}
+	give := func(n *node, ps ...*Payload) {
+		for _, p := range ps {
+			if p != nil {
+				n.recv(p)
+			}
+		}
+	}
+	reqV0 := pick(n1, dbft.PrepareRequestType, 0)
+	if reqV0 == nil {
+		fmt.Fprintf(w, "NOTE race: primary did not propose\n")
+		endRun(w, mon, n1, n2, n3)
+		return
+	}
+	give(n2, reqV0)
+	resp2 := pick(n2, dbft.PrepareResponseType, 0)
+	give(n3, reqV0)
+	resp3 := pick(n3, dbft.PrepareResponseType, 0)
+	give(n3, resp2)
+	cm3 := pick(n3, dbft.CommitType, 0)
+	if cm3 == nil {
+		fmt.Fprintf(w, "NOTE race: node 3 did not commit\n")
+		endRun(w, mon, n1, n2, n3)
+		return
+	}
+	hashX := cm3.Body.(commit).s.hash
+	cm0 := &Payload{dbft.CommitType, 1, 0, 0, commit{sigv{100, hashX}}}
+	cv0 := &Payload{dbft.ChangeViewType, 1, 0, 0, chView{1, 0, 0}}
+	timeout := func(n *node) {
+		n.tm.armed = false
+		n.op("T 1 0", func() { n.d.OnTimeout(1, 0) })
+	}
+	give(n2, cv0)
+	timeout(n2)
+	cv2 := pick(n2, dbft.ChangeViewType, 0)
+	give(n1, resp2, cv0, cm3)
+	timeout(n1)
+	cv1 := pick(n1, dbft.ChangeViewType, 0)
+	give(n1, cm0, resp3) // more than F committed: node 1 finishes view 0 and accepts X
+	pick(n1, dbft.CommitType, 0)
+	give(n2, cv1)             // ChangeViews {0,1,2}: node 2 moves to view 1
+	give(n3, cv2, cv0, cv1)   // the committed node must not follow
+	n3.out = nil
+	reqV1 := &Payload{dbft.PrepareRequestType, 1, 1, 0, prepReq{12345000000000, 42, nil}}
+	give(n2, reqV1)
+	resp2v1 := pick(n2, dbft.PrepareResponseType, 1)
+	give(n3, resp2v1, reqV1)
+	var resp3v1, cm3v1 *Payload
+	for _, p := range n3.out {
+		if p.V == 1 && p.T == dbft.PrepareResponseType {
+			resp3v1 = p
+		}
+		if p.V == 1 && p.T == dbft.CommitType {
+			cm3v1 = p
+		}
+	}
+	n3.out = nil
+	blkY := &Block{idx: 1, prev: "", ts: 12345000000000, nonce: 42, hashes: nil}
+	cm0v1 := &Payload{dbft.CommitType, 1, 1, 0, commit{sigv{100, blkY.Hash()}}}
+	give(n2, resp3v1)
+	cm2v1 := pick(n2, dbft.CommitType, 1)
+	give(n2, cm3v1, cm0v1)
+	give(n3, cm2v1, cm0v1)
+	fmt.Fprintf(w, "NOTE race: views 1=%d 2=%d 3=%d heights %d %d %d\n", n1.d.ViewNumber, n2.d.ViewNumber, n3.d.ViewNumber, n1.height, n2.height, n3.height)
+	endRun(w, mon, n1, n2, n3)
 }
